@@ -61,6 +61,13 @@ class InjectedTypeError(TypeError):
     pass
 
 
+class InjectedBaseError(BaseException):
+    """A failure that is no Exception (raised BY user code, not thrown in): it propagates and is cleaned up after like any other."""
+
+    def __bool__(self):
+        return False
+
+
 class Cancelled(BaseException):
     """What the driver throws into a suspended operation (cancellation)."""
 
